@@ -121,9 +121,15 @@ select {
 case v := <-ch:
 	%R(fmt.Sprintf("%q", v))
 }`,
+		`größe := len("héllo, 世界") // комментарий — ü {
+msg := fmt.Sprintf("%d — %s", größe, ` + "`日本語 \"raw\" }`" + `)
+%R(msg)`,
 	},
 	// contains /* ... */ comments
 	"b2c": {
+		`/* блок — 注释 } */
+naïve := "ß" /* ü */ + "…"
+%R(fmt.Sprint(naïve))`,
 		`/* block comment { with a brace */
 x := 1 /* inline */ + 2
 %R(fmt.Sprint(x))`,
@@ -182,6 +188,7 @@ var docTextPool = []string{
 	"// %M resolves %F with care.\n//\n// It has a second paragraph: { braces } and \"quotes\".",
 	"// %M looks the value up.\n//\n//   - first item\n//   - second item\n//\n// Deprecated: kept for %F.",
 	"// %M is documented on a single line.",
+	"// %M — résumé of %F: naïve café, 世界.\n//\n// Zweiter Absatz: größer als { } erwartet.",
 }
 var docDirectivePool = []string{
 	"//nolint:gocyclo",
